@@ -316,6 +316,10 @@ def run(chk):
         "output not in port list": module_text(["a", "b"], ["o", "p"], [], ["assign o = a & b;", "assign p = a;"], ports=["a", "b", "o"]),
         "port never declared": module_text(["a", "b"], ["o"], [], ["assign o = a & b;"], ports=["a", "b", "o", "z"]),
         "port declared only as a wire": module_text(["a", "b"], ["o"], ["w"], ["assign w = a | b;", "assign o = a & b;"], ports=["a", "b", "w", "o"]),
+        # the same number of ports as declarations, but different ones: one declared port missing AND one undeclared name listed
+        "same size, an input missing and an undeclared name listed": module_text(["a", "c"], ["y"], [], ["assign y = a & c;"], ports=["a", "b", "y"]),
+        "same size, an output missing and an undeclared name listed": module_text(["a", "b"], ["y", "z"], [], ["assign y = a & b;", "assign z = a;"], ports=["a", "b", "y", "q"]),
+        "same size, every listed name undeclared": module_text(["a", "c"], ["y"], [], ["assign y = a & c;"], ports=["q", "r", "s"]),
         "port declared as a wire and driven, declarations last": "module m (a, w, o);\n  assign w = ~a;\n  assign o = w;\n  wire w;\n  output o;\n  input a;\nendmodule\n",
     }
     for name, text in rej.items():
@@ -415,6 +419,13 @@ def run(chk):
         "net named and_a_b defined after the expression": (["a", "b", "c"], ["o", "p"], ["and_a_b"], ["assign o = (a & b) | c;", "or g(and_a_b, c, a);", "assign p = and_a_b;"],
                                                              {"o": lambda v: (v["a"] and v["b"]) or v["c"], "p": lambda v: v["c"] or v["a"], "and_a_b": lambda v: v["c"] or v["a"]}),
     }
+    # operand names that join to the same string: the synthetic gate names (`and_a_b_c`) of two different expressions coincide
+    ns_cases["operand names joining to one string (and)"] = (["a", "b_c", "a_b", "c"], ["o1", "o2"], [], ["assign o1 = a & b_c;", "assign o2 = a_b & c;"],
+                                                             {"o1": lambda v: v["a"] and v["b_c"], "o2": lambda v: v["a_b"] and v["c"]})
+    ns_cases["operand names joining to one string (xor, nested)"] = (["n_1_n", "x_2_3", "n_1", "n_x_2_3", "e"], ["y0", "y1"], [], ["assign y0 = (n_1_n ^ x_2_3) | e;", "assign y1 = (n_1 ^ n_x_2_3) & e;"],
+                                                                     {"y0": lambda v: (v["n_1_n"] != v["x_2_3"]) or v["e"], "y1": lambda v: (v["n_1"] != v["n_x_2_3"]) and v["e"]})
+    ns_cases["the same sub-expression twice, then a different one under the same joined name"] = (["a", "b_c", "a_b", "c", "d"], ["o1", "o2", "o3"], [], ["assign o1 = (a | b_c) & d;", "assign o2 = (a | b_c) ^ d;", "assign o3 = (a_b | c) & d;"],
+        {"o1": lambda v: (v["a"] or v["b_c"]) and v["d"], "o2": lambda v: (v["a"] or v["b_c"]) != v["d"], "o3": lambda v: (v["a_b"] or v["c"]) and v["d"]})
     for name, (ins, outs, wires, body, fns) in ns_cases.items():
         text = module_text(ins, outs, wires, body)
         n_parse += 1
